@@ -286,6 +286,49 @@ def reader_reuse(rec, hub, seed, i, tmpdir):
             rec.violation(M, "reused-reader-returned-values-of-an-earlier-file-content", w)
 
 
+def reader_several_parameters(rec, hub, seed, i, tmpdir):
+    """one reader object asked for SEVERAL parameters at once (read_parameters): the call is refused because the second file is faulty;
+    the user repairs that file - meanwhile the FIRST file has changed too (new values, or a fault of its own) - and asks again: every
+    call reflects all files as they are then"""
+    fd = hub.fd
+    rng = case_nprng(seed, "c12.several", 0, i)
+    spec, dims = F.make_dims(fd, rng, allow_untyped_int=False)
+    paths = {n: os.path.join(tmpdir, f"several{i}_{n}.csv") for n in ("first", "second")}
+    reader = fd.CSVParameterReader(parameter_files=dict(paths))
+    defs = [fd.ParameterDefinition(name=n, dim_letters=tuple(dims.letters)) for n in ("first", "second")]
+
+    def write(name, faulty):
+        values = F.make_values(rng, dims.shape)
+        df, info = F.render(spec, F.long_records(spec, values), rng, layout="long", header="names", in_index="none", vname="value", omit_single=False)
+        df = df.reset_index(drop=True)
+        if faulty:
+            out, det = F.inject(df, spec, info, str(rng.choice(["drop_row", "dup_row", "blank_value", "unknown_item"])), rng, "random")
+            if out is None:
+                return None
+            df = out
+        df.to_csv(paths[name], index=False)
+        return values
+
+    plan = [(False, True), (bool(rng.integers(0, 2)), False), (False, False)]  # (first file faulty, second file faulty) per call
+    for step, (f1, f2) in enumerate(plan):
+        v1, v2 = write("first", f1), write("second", f2)
+        if v1 is None or v2 is None:
+            return
+        faulty = f1 or f2
+        rec.event(M, sig=f"several|step={step}|{f1}|{f2}", cls=f"reader-reuse|several parameters in one call|{'a faulty file' if faulty else 'all files clean'}")
+        try:
+            got, exc = reader.read_parameters(defs, dims), None
+        except Exception as e:
+            got, exc = None, e
+        w = {"route": "read_parameters on a reused reader", "call": step + 1, "first_file_faulty_now": f1, "second_file_faulty_now": f2}
+        if faulty and exc is None:
+            rec.violation(M, "reused-reader-accepted-a-file-that-is-faulty-now", w)
+        elif not faulty and exc is not None:
+            rec.violation(M, "reused-reader-refused-a-file-that-is-fine-now", dict(w, exc=repr(exc)[:300]))
+        elif not faulty and not (np.array_equal(got["first"].values, v1) and np.array_equal(got["second"].values, v2)):
+            rec.violation(M, "reused-reader-returned-values-of-an-earlier-file-content", w)
+
+
 def run(rec, hub, tier, seed, shard, nshards, budget):
     rec.require(M, 100)
     rec.require(MT, 10)
@@ -301,6 +344,8 @@ def run(rec, hub, tier, seed, shard, nshards, budget):
             if kk % 25 == 0:
                 rec.set_case(driver="c12.reuse", seed=seed, tier=tier, shard=shard, nshards=nshards, idx=i)
                 reader_reuse(rec, hub, seed, i, tmpdir)
+                rec.set_case(driver="c12.several", seed=seed, tier=tier, shard=shard, nshards=nshards, idx=i)
+                reader_several_parameters(rec, hub, seed, i, tmpdir)
     finally:
         shutil.rmtree(tmpdir, ignore_errors=True)
 
@@ -311,6 +356,8 @@ def replay(rec, hub, case):
         rec.set_case(**case)
         if case["driver"] == "c12.reuse":
             reader_reuse(rec, hub, case["seed"], case["idx"], tmpdir)
+        elif case["driver"] == "c12.several":
+            reader_several_parameters(rec, hub, case["seed"], case["idx"], tmpdir)
         else:
             one(rec, hub, case["seed"], case.get("tier", "quick"), case["idx"], tmpdir)
     finally:
